@@ -11,6 +11,7 @@ with/without parameter image; 3 configurations whose fresh-run outputs are known
     successful call's outputs decode to exactly what the same call produces in a fresh directory.
 """
 import hashlib
+import json
 import os
 import pathlib
 import shutil
@@ -277,6 +278,8 @@ def run(run: common.Run):
     multi_source_cli(run, tmp, pair, src, ref, fresh_cli)
     tilde_paths(run, tmp, pair)
     refused_calls_leave_nothing(run, tmp, pair)
+    if run.only is None:
+        stale_sidecar_leg(run, tmp, pair)
 
 
 def sig_px(path):
@@ -298,6 +301,58 @@ def tree_state(root):
             st = p.stat()
             out[str(p.relative_to(root))] = (hashlib.sha1(p.read_bytes()).hexdigest(), st.st_mtime_ns, st.st_size)
     return out
+
+
+def stale_sidecar_leg(run, tmp, pair):
+    """
+    Overwriting outputs whose earlier versions own GDAL side-car files (`<file>.aux.xml`: an earlier run with the strict GeoTIFF
+    profile keeps its tags and band descriptions there): the new outputs replace the old ones *completely* - same decoded content
+    and the same files as the same call into an empty directory.
+    """
+    from homonim import RasterFuse, ParamStats
+    from homonim.enums import Model
+    old_new = tmp / 'sidecar_old_new'
+    fresh = tmp / 'sidecar_fresh'
+    for d in (old_new, fresh):
+        d.mkdir()
+
+    def call(d, model, kernel, thresh, overwrite, profile):
+        with warnings.catch_warnings():
+            warnings.simplefilter('ignore')
+            with RasterFuse(pair.src_path, pair.ref_path) as rf:
+                rf.process(d / 'corr.tif', Model(model), kernel, param_filename=d / 'corr_PARAM.tif', overwrite=overwrite, build_ovw=False,
+                           block_config=dict(threads=1), model_config=dict(r2_inpaint_thresh=thresh), out_profile=profile)
+    case = dict(i=670_000, op='overwrite of outputs that own side-car files')
+    try:
+        call(old_new, 'gain-offset', (3, 3), 0.9, False, dict(creation_options=dict(profile='GeoTIFF')))
+        had = sorted(n for n in os.listdir(old_new) if n.endswith(SIDECARS))
+        call(old_new, 'gain-offset', (5, 5), 0.1, True, None)
+        call(fresh, 'gain-offset', (5, 5), 0.1, False, None)
+    except Exception as ex:
+        run.fail(case, f'raised {type(ex).__name__}: {ex}', signature=dict(kind='other-error', op='sidecar'))
+        return
+    run.evaluations += 1
+    run.hist[f'overwrite over outputs with side-cars ({len(had)} side-car files before)'] += 1
+    if had:
+        run.nontrivial.add(('stale-sidecar',))
+    a, b = sorted(os.listdir(old_new)), sorted(os.listdir(fresh))
+    if a != b:
+        run.fail(case, f'after the overwrite the directory holds {a}, the same call into an empty directory gives {b}',
+                 signature=dict(kind='stale-files'))
+        return
+    for nm in ('corr.tif', 'corr_PARAM.tif'):
+        if sig(old_new / nm) != sig(fresh / nm):
+            with rio.open(old_new / nm) as x, rio.open(fresh / nm) as y:
+                dt = {k: (x.tags().get(k), y.tags().get(k)) for k in set(x.tags()) | set(y.tags()) if x.tags().get(k) != y.tags().get(k)}
+            run.fail(case, f'{nm} written over an earlier output differs from the one written into an empty directory (tags that differ: {dt})',
+                     signature=dict(kind='history-dependent', op='sidecar'))
+            return
+    with warnings.catch_warnings():
+        warnings.simplefilter('ignore')
+        with ParamStats(old_new / 'corr_PARAM.tif') as p1, ParamStats(fresh / 'corr_PARAM.tif') as p2:
+            s1, s2 = json.dumps(p1.stats(threads=1), default=float, sort_keys=True), json.dumps(p2.stats(threads=1), default=float, sort_keys=True)
+    if s1 != s2:
+        run.fail(case, 'parameter statistics of the overwritten output differ from those of a fresh run', signature=dict(kind='history-dependent', op='sidecar-stats'))
 
 
 def refused_calls_leave_nothing(run, tmp, pair):
